@@ -110,7 +110,7 @@ def check_routes(spec, ctx):
         m1 = gg.deriv_continuous_mask_grid(fs, grid, 1)
         J = ctx.sut(f.grid_jacobian, grid, what="grid_jacobian")
         _cmp(ctx, "grid_jacobian", J, R[1], S[1][..., None], mask=m1)
-    if order >= 2 and vs != (1,):
+    if order >= 2:
         m2 = gg.deriv_continuous_mask_grid(fs, grid, 2)
         H = ctx.sut(f.grid_hessian, grid, what="grid_hessian")
         _cmp(ctx, "grid_hessian", H, rg.hess_linearized(R[2], d), S[2][..., None], fac=2048, mask=m2)
